@@ -204,7 +204,9 @@ def sum_horizontal(*args):
 
 
 def concat_str(*args, **kw):
-    raise Unmodelled("pl.concat_str")
+    if kw.get("separator") or kw.get("ignore_nulls"):
+        raise Unmodelled("pl.concat_str options")
+    return Expr("hfun", "concat_str", _flat(args))
 
 
 # ---- evaluation
@@ -293,6 +295,14 @@ def _when_cell(c, a, b):
 
 
 def _hfun(name, cells):
+    if name == "concat_str":
+        if any(c.kind != "s" for c in cells):
+            raise Unmodelled("concat_str of non-strings (number formatting)")
+        dc, kf = C.taint(*cells)
+        v = cells[0].val
+        for c in cells[1:]:
+            v = z3.Concat(v, c.val)
+        return Cell(zor(*[c.null for c in cells]), v, "s", dc, kf)  # null if any part is null (ignore_nulls=False)
     if name == "coalesce":
         res = cells[-1]
         for c in reversed(cells[:-1]):
